@@ -51,6 +51,8 @@ def scenario(params, ch):
     try:
         w.run_until_connected()
         w.run(2)
+        if "hraise" in opts:
+            w.handler.raise_always.add("handle_message")     # the application's handler fails on every message
         if "wrap" in opts:
             w.run(4)
             w.preset_near_wrap()   # datagram, message and fragment counters cross the 16-bit wrap during the scenario
@@ -165,6 +167,10 @@ def params_list(tier):
             if direction == "c2s":
                 for o in (("cs|oncb",) if tier == "quick" else ("cs|oncb", "sc|oncb", "cs|oncb|dt60")):
                     out.append((direction, msgs + (("small", "none"),), "none", o, 1, 0))
+            # the server application's handle_message raises for every message (more datagrams follow: keep-alives, retries)
+            if direction == "c2s":
+                for o in (("cs|hraise",) if tier == "quick" else ("cs|hraise", "sc|hraise")):
+                    out.append((direction, msgs + (("small", "none"), ("small", "best")), "none", o, 1, 0))
             # the receiver disconnects between the first copy and a retransmission (acks towards the sender are lost)
             if any(r != "none" for _, r in msgs):
                 for o in (("cs|rdisc",) if tier == "quick" else ("cs|rdisc", "sc|rdisc", "cs|rdisc|ka0.5")):
